@@ -28,6 +28,9 @@ import (
 
 // refusingServer answers Activate requests by identifier: "...-bad" is refused (Permission Denied, with the server's
 // message), anything else succeeds and echoes the identifier. hangUp: it closes the connection right after each answer.
+// answeredCompletely: identifiers whose answer the hanging-up server has written out in full before closing.
+var answeredCompletely sync.Map
+
 func refusingServer(hangUp bool) *script.Server {
 	return script.NewServer(func(rx script.Received, conn *memnet.Conn) *kmip.ResponseMessage {
 		id := ""
@@ -46,7 +49,9 @@ func refusingServer(hangUp bool) *script.Server {
 			})
 		}
 		if hangUp {
-			conn.Write(ttlv.MarshalTTLV(resp))
+			if _, werr := conn.Write(ttlv.MarshalTTLV(resp)); werr == nil {
+				answeredCompletely.Store(id, true)
+			}
 			conn.Close()
 			return nil
 		}
@@ -238,11 +243,17 @@ func answerThenHangUp(c *core.Ctx, r *core.Rand, i int) {
 			return
 		}
 		c.Count("answers_followed_by_hang_up", 1)
-		if err != nil && !strings.HasSuffix(id, "-bad") {
+		// a request may also fail before it reaches the server (it was written to the connection the server had just
+		// closed): only requests whose answer the server wrote out in full are judged strictly
+		_, answered := answeredCompletely.Load(id)
+		if answered {
+			c.Count("answers_followed_by_hang_up.answer-written-in-full", 1)
+		}
+		if err != nil && answered && !strings.HasSuffix(id, "-bad") {
 			c.Violation("C12:complete-answer-lost:answer-then-hang-up", fmt.Sprintf("request %q was answered completely (then the server hung up) and the call returns %v", id, err), nil)
 			return
 		}
-		if !judgeRefusal(c, "answer-then-hang-up", id, pl, err, fmt.Sprintf("server hangs up after each answer, the client's Write returns %v late", d), false) {
+		if !judgeRefusal(c, "answer-then-hang-up", id, pl, err, fmt.Sprintf("server hangs up after each answer, the client's Write returns %v late", d), !answered) {
 			return
 		}
 	}
